@@ -312,7 +312,8 @@ partial def namesOfE (e : Expr) : List String :=
   go [e] []
 
 /-- function `g` of the whole-program Core is function `f` of the separate Core renamed by `σ`, and
-    the hypotheses of the renaming theorem hold of `f` (`N` = the names `σ` must be injective on) -/
+    the hypotheses of the renaming theorem hold of `f` (`N` = the names `σ` must be injective on);
+    closure expressions are allowed (`scC` instead of `cfE` + `scE`, round 10) -/
 def validFn (σ : String → String) (N : List String) (f g : Fn) : Bool :=
   f.params.map (fun p => σ p.1) == g.params.map (·.1) && aeE σ f.body g.body &&
   injOn σ N && inE N f.body && f.params.all (fun p => N.contains p.1) &&
